@@ -40,6 +40,8 @@ type Program struct {
 	callSites   map[*ssa.Function][]*ssa.Call // direct call sites by callee (directCallSites)
 	usedAsValue map[*ssa.Function]bool
 	constMaps   map[string]map[string]aval // allConstMaps
+	anchors     *anchorDB                  // fingerprints.go
+	aliasMap    map[string][]string        // keyAliases
 	LoadS    float64
 }
 
@@ -206,6 +208,11 @@ func (p *Program) Func(rel, name string) (*ssa.Function, error) {
 	}
 	f := sp.Func(name)
 	if f == nil {
+		if !token.IsExported(name) {
+			if g := p.resolveFuncByFingerprint(rel, "", name); g != nil {
+				return g, nil
+			}
+		}
 		return nil, fmt.Errorf("anchor: func %s.%s not found", rel, name)
 	}
 	return f, nil
@@ -232,6 +239,11 @@ func (p *Program) Method(rel, typ, name string) (*ssa.Function, error) {
 			}
 		}
 	}
+	if !token.IsExported(name) {
+		if g := p.resolveFuncByFingerprint(rel, typ, name); g != nil {
+			return g, nil
+		}
+	}
 	return nil, fmt.Errorf("anchor: method %s.%s.%s not found", rel, typ, name)
 }
 
@@ -242,6 +254,11 @@ func (p *Program) Global(rel, name string) (*ssa.Global, error) {
 		return nil, err
 	}
 	g, _ := sp.Members[name].(*ssa.Global)
+	if g == nil && !token.IsExported(name) {
+		if nn := p.resolveVarByFingerprint(rel, name); nn != "" {
+			g, _ = sp.Members[nn].(*ssa.Global)
+		}
+	}
 	if g == nil {
 		return nil, fmt.Errorf("anchor: var %s.%s not found", rel, name)
 	}
